@@ -250,6 +250,7 @@ pub fn remap_op(op: &Op, k: usize) -> Option<Op> {
         Op::FindOut { u, k: kk } => Op::FindOut { u: remap(*u, k)?, k: remap(*kk, k)? },
         Op::FindIn { u, k: kk } => Op::FindIn { u: remap(*u, k)?, k: remap(*kk, k)? },
         Op::Snapshot { u } => Op::Snapshot { u: remap(*u, k)? },
+        Op::SnapshotVia { u, style } => Op::SnapshotVia { u: remap(*u, k)?, style: *style },
         Op::Search { root, spec } => {
             let mut s = spec.clone();
             if let Some(t) = s.target {
